@@ -86,9 +86,95 @@ func (g *gen) parseOpts() ParseOpts {
 // stratified draws one object with every structural dimension sampled
 // uniformly over its classes: kind family, size class, provenance, index
 // configuration, hole class, child-count class.
+// edgeCase draws an object from a catalogue of degenerate inputs: the branches
+// of the library that special-case them are otherwise almost never taken.
+func (g *gen) edgeCase() Recipe {
+	r := g.r
+	opts := g.parseOpts()
+	opts.RequireValid = false
+	base := g.shape(true)
+	mk := func(kind, via string) Recipe { return Recipe{Kind: kind, Via: via, Opts: opts, Shape: base} }
+	switch r.Intn(12) {
+	case 0: // empty collection of some kind
+		return mk(r.PickS("MultiPoint", "MultiLineString", "MultiPolygon", "GeometryCollection", "FeatureCollection"), r.PickS("parse", "ctor"))
+	case 1: // NewPolygon(nil)
+		rc := mk("Polygon", "ctor")
+		rc.Shape.N = 0
+		return rc
+	case 2: // circle of radius zero
+		rc := mk("Circle", r.PickS("parse", "ctor"))
+		rc.Shape.Meters, rc.Shape.Steps = 0, r.Pick(3, 12, 64)
+		return rc
+	case 3: // negative or absurdly large radius (constructor only)
+		rc := mk("Circle", "ctor")
+		rc.Shape.Meters, rc.Shape.Steps = r.PickF(-5, -1e6, 3e7, 1e12), r.Pick(3, 12, 64)
+		return rc
+	case 4: // Feature around an empty collection
+		rc := mk("Feature", r.PickS("parse", "ctor"))
+		rc.Children = []Recipe{mk(r.PickS("MultiPolygon", "GeometryCollection", "MultiPoint"), "parse")}
+		rc.Members = featureMembers[r.Intn(len(featureMembers))]
+		return rc
+	case 5: // collection whose children are all empty
+		rc := mk("GeometryCollection", "ctor")
+		for i := r.Range(1, 4); i > 0; i-- {
+			ch := mk("Polygon", "ctor")
+			ch.Shape.N = 0
+			rc.Children = append(rc.Children, ch)
+		}
+		return rc
+	case 6: // line with identical points (R = 0, no jitter)
+		rc := mk("LineString", r.PickS("parse", "ctor"))
+		rc.Shape.R, rc.Shape.Jag, rc.Shape.N = 0, 0, r.Pick(2, 3, 70)
+		return rc
+	case 7: // ring whose points are all collinear / coincide
+		rc := mk("Polygon", r.PickS("parse", "ctor"))
+		rc.Shape.R, rc.Shape.N = 0, r.Pick(3, 4, 70)
+		return rc
+	case 8: // zero-area rectangle
+		rc := mk("Rect", "ctor")
+		rc.Shape.R = 0
+		return rc
+	case 9: // coordinates far outside the valid range
+		rc := mk(r.PickS("Polygon", "LineString", "Point", "MultiPoint"), r.PickS("parse", "ctor"))
+		rc.Shape.Cx, rc.Shape.Cy, rc.Shape.N = r.PickF(-500, 400, 1e6), r.PickF(-200, 95, 1e6), r.Pick(4, 12)
+		return rc
+	case 10: // point with a JSON null coordinate (NaN)
+		rc := mk("Point", "parse")
+		rc.Shape.Units = "null-x"
+		return rc
+	}
+	// polygon with a hole that is larger than its exterior (hole "outside")
+	rc := mk("Polygon", r.PickS("parse", "ctor"))
+	rc.Shape.N, rc.Shape.Holes, rc.Shape.Jag = r.Pick(4, 8), 1, -1.5
+	return rc
+}
+
 func (g *gen) stratified() Recipe {
+	if g.r.Chance(0.15) {
+		return g.edgeCase()
+	}
 	kind := g.r.PickS("Polygon", "Polygon", "LineString", "MultiPolygon", "MultiPoint", "MultiLineString", "FeatureCollection", "GeometryCollection", "Feature", "Feature", "Circle")
 	return g.stratifiedOf(kind)
+}
+
+// nearFloat returns a value just below, at or just above a floating-point
+// literal of the library source lying in [lo, hi].
+func (g *gen) nearFloat(lo, hi float64) (float64, bool) {
+	var cands []float64
+	for _, c := range harvestedF {
+		if c >= lo && c <= hi {
+			cands = append(cands, c)
+		}
+	}
+	for _, c := range harvested { // integer literals are often used as floats
+		if float64(c) >= lo && float64(c) <= hi {
+			cands = append(cands, float64(c))
+		}
+	}
+	if len(cands) == 0 {
+		return 0, false
+	}
+	return cands[g.r.Intn(len(cands))] * g.r.PickF(0.999, 1, 1, 1.001), true
 }
 
 // nearConstant returns a size just below, at or just above one of the integer
@@ -162,6 +248,16 @@ func (g *gen) stratifiedOf(kind string) Recipe {
 		sh := g.shape(small)
 		if !small {
 			sh.N = sizeClass()
+			if r.Chance(0.1) {
+				if v, ok := g.nearFloat(0.01, 60); ok {
+					sh.R = v // an extent next to a float constant of the source
+				}
+			}
+			if r.Chance(0.1) {
+				if v, ok := g.nearFloat(1, 400); ok {
+					sh.Cx, sh.Cy = v*r.PickF(1, -1), v*r.PickF(0.5, -0.5, 1)
+				}
+			}
 		}
 		sh.Holes = 0
 		return sh
@@ -194,6 +290,9 @@ func (g *gen) stratifiedOf(kind string) Recipe {
 	case "Circle":
 		rc = g.recipe("Circle", 0, false)
 		rc.Shape.Steps = r.Pick(3, 8, 12, 64)
+		if v, ok := g.nearFloat(1, 5e7); ok && r.Chance(0.3) {
+			rc.Shape.Meters = v // a radius next to a float constant of the source
+		}
 		if v, ok := g.nearConstant(3, 400); ok && r.Chance(0.3) {
 			rc.Shape.Steps = v
 			rc.Via = "ctor"
